@@ -212,6 +212,44 @@ func cmdCodec(bw *bufio.Writer, n int, seed int64) {
 		}
 		emit("burn_bytes", inb, obsb)
 	}
+	// well-formed encodes in an order that exposes memory kept between calls: every later value is narrower / shorter
+	// than the one before it (a recycled buffer shows through), then wider again
+	widths := []int{32, 20, 9, 8, 3, 1, 0, 32, 1}
+	for _, w := range widths {
+		amt := new(big.Int)
+		if w > 0 {
+			bz := rnd(w)
+			bz[0] |= 0x80
+			amt.SetBytes(bz)
+		}
+		b := types.BurnMessage{Version: 0, BurnToken: rnd(32), MintRecipient: rnd(32), Amount: sdkmath.NewIntFromBigInt(amt), MessageSender: rnd(32)}
+		obsb := M{"res": "err", "bytes": 0, "back": 0}
+		if res := guard(func() {
+			if bz, err := b.Bytes(); err == nil {
+				obsb["res"], obsb["bytes"] = "ok", ints(bz)
+				if back, err2 := new(types.BurnMessage).Parse(bz); err2 == nil {
+					obsb["back"] = burnFields(back)
+				}
+			}
+		}); res == "panic" {
+			obsb["res"] = "panic"
+		}
+		emit("burn_bytes", burnFields(&b), obsb)
+		m := types.Message{Version: 0, SourceDomain: 4, DestinationDomain: uint32(w), Nonce: uint64(w), Sender: rnd(32), Recipient: rnd(32),
+			DestinationCaller: rnd(32), MessageBody: rnd(w * 6)}
+		obs := M{"res": "err", "bytes": 0, "back": 0}
+		if res := guard(func() {
+			if bz, err := m.Bytes(); err == nil {
+				obs["res"], obs["bytes"] = "ok", ints(bz)
+				if back, err2 := new(types.Message).Parse(bz); err2 == nil {
+					obs["back"] = msgFields(back)
+				}
+			}
+		}); res == "panic" {
+			obs["res"] = "panic"
+		}
+		emit("msg_bytes", msgFields(&m), obs)
+	}
 	fmt.Fprintf(os.Stderr, "codec: %d vectors\n", id)
 }
 
